@@ -246,6 +246,13 @@ class Repo:
                 self.consulted.append(pxd)
         elif need_pyx:
             raise AnalysisError('missing %s' % pyx)
+        from . import expand
+        self.expansion = expand.expand_modules(self.modules)
+        if not os.environ.get('SA_NO_CANON'):
+            from . import canon
+            canon.canon_modules(self.modules)
+        for m in self.modules.values():
+            set_parents(m.tree)
         for m in self.modules.values():
             self._index_module(m)
         self.classes = {}
@@ -256,6 +263,23 @@ class Repo:
             self._resolve_bases(c)
         for c in self.classes.values():
             self._mro(c, ())
+        # classes that are not in the reference inventory (private bases / mixins introduced by a refactoring) are
+        # transparent: what they define is seen as defined by the inventoried class that inherits it
+        base = expand.load_baseline()
+        self.new_classes = set()
+        if base is not None:
+            known = set(base.get('classes', []))
+            self.new_classes = {q for q in self.classes if q not in known}
+            for c in self.classes.values():
+                if c.qualname not in known:
+                    continue
+                for k in c.mro[1:]:
+                    if isinstance(k, ClassInfo) and k.qualname in self.new_classes:
+                        for name, fi in k.methods.items():
+                            c.methods.setdefault(name, fi)
+                        for name, v in k.attrs.items():
+                            c.attrs.setdefault(name, v)
+                            c.attr_stmts.setdefault(name, k.attr_stmts.get(name, []))
 
     # -- indexing ---------------------------------------------------------
     def _index_module(self, m):
